@@ -3,7 +3,7 @@ from __future__ import annotations
 
 import z3
 
-from engine.pyvals import NONE, PyObj, PyTuple, Tok, TokSeq, Val, is_tok, truthy as z3_truthy
+from engine.pyvals import NONE, PyObj, PyTuple, same_obj, Tok, TokSeq, Val, is_tok, truthy as z3_truthy
 from engine.pyvc import Tr, lift
 
 CLASSES = {
@@ -39,6 +39,7 @@ CLASSES = {
     # the ast nodes the subprocess-argument builders distinguish (positions + what they read); `elts` is not modelled
     "ast.Constant": {"value": "str", "lineno": "int", "col_offset": "int", "end_lineno": "int", "end_col_offset": "int"},
     "ast.Starred": {"lineno": "int", "col_offset": "int", "end_lineno": "int", "end_col_offset": "int"},
+    "ast.withitem": {"context_expr": "obj:PosNode"},
     "ast.Tuple": {"elts": "const:opaque-list", "lineno": "int", "col_offset": "int", "end_lineno": "int", "end_col_offset": "int"},
     "SyntaxError": {"msg": "str", "filename": "str", "lineno": "int", "offset": "int", "text": "str", "end_lineno": "int", "end_offset": "int",
                     "bare": "bool", "nargs": "int"},
@@ -209,6 +210,82 @@ def sf_lit_fold(ex, st, parts, n):
 def sf_has_field(ex, st, o, name):
     nm = z3.simplify(lift(name)).as_string()
     return z3.BoolVal(isinstance(o, PyObj) and nm in o.fields)
+
+
+def _tree_match(node, val, holes):
+    """z3 Bool: the Python-side tree `val` (PyObj nodes built by the code) is the ast `node` (CPython's parse of the documented
+    translation); names H<k> stand for the k-th hole object (identity), S<k> for a string Constant whose value is the k-th hole"""
+    import ast as _ast
+    from engine.pyvals import PyConst, PyList
+    from engine.pyvc import eq
+    if isinstance(node, _ast.Name) and len(node.id) >= 2 and node.id[0] in "HS" and node.id[1:].isdigit():
+        h = holes[int(node.id[1:])]
+        if node.id[0] == "H":
+            return z3.BoolVal(same_obj(val, h)) if isinstance(h, PyObj) or isinstance(val, PyObj) else eq(val, h)
+        return z3.And(z3.BoolVal(isinstance(val, PyObj) and val.cls == "ast.Constant"), eq(val.fields.get("value"), h)) \
+            if isinstance(val, PyObj) and "value" in val.fields else z3.BoolVal(False)
+    if not (isinstance(val, PyObj) and val.cls == "ast." + type(node).__name__):
+        return z3.BoolVal(False)
+    conj = []
+    for f in node._fields:
+        want = getattr(node, f, None)
+        got = val.fields.get(f, NONE)
+        if isinstance(want, _ast.expr_context):
+            conj.append(z3.BoolVal(isinstance(got, PyConst) and got.name == type(want).__name__))
+        elif isinstance(want, _ast.AST):
+            conj.append(_tree_match(want, got, holes))
+        elif isinstance(want, list) and len(want) == 1 and isinstance(want[0], _ast.Starred) and isinstance(want[0].value, _ast.Name) and want[0].value.id == "_":
+            pass          # `*_`: a list the contract describes element-wise in a separate clause
+        elif (isinstance(want, list) and len(want) == 1 and isinstance(want[0], _ast.Starred) and isinstance(want[0].value, _ast.Name)
+              and want[0].value.id[0] == "A" and want[0].value.id[1:].isdigit()):
+            # `*A<k>`: the whole list IS the k-th hole (a sequence of unknown length)
+            h = holes[int(want[0].value.id[1:])]
+            conj.append(eq(got, h) if z3.is_expr(got) and z3.is_expr(h) else z3.BoolVal(same_obj(got, h)))
+        elif isinstance(want, list):
+            items = got.items if isinstance(got, (PyList, PyTuple)) else ([] if got is NONE else None)
+            if items is None or len(items) != len(want):
+                return z3.BoolVal(False)
+            conj.extend(_tree_match(w, g, holes) if isinstance(w, _ast.AST) else eq(g, z3.StringVal(w) if isinstance(w, str) else w) for w, g in zip(want, items))
+        elif want is None:
+            conj.append(z3.BoolVal(got is NONE))
+        elif isinstance(want, str):
+            conj.append(eq(got, z3.StringVal(want)) if got is not NONE else z3.BoolVal(False))
+        elif isinstance(want, (int, bool)):
+            conj.append(eq(got, z3.IntVal(int(want))) if got is not NONE else z3.BoolVal(False))
+        else:
+            return z3.BoolVal(False)
+    return z3.And(conj) if conj else z3.BoolVal(True)
+
+
+def sf_is_translation(ex, st, result, text, *holes):
+    """the tree built by the code IS CPython's parse of the documented translation `text` (an expression; H<k>/S<k> are holes)"""
+    import ast as _ast
+    src = z3.simplify(lift(text)).as_string()
+    return _tree_match(_ast.parse(src, mode="eval").body, result, holes)
+
+
+def sf_all_located(ex, st, result, lineno, col, end_lineno, end_col, *holes):
+    """every node built for the construct (not the hole objects handed in) carries exactly these four position attributes"""
+    from engine.pyvals import PyList
+    from engine.pyvc import eq
+    conj = []
+    seen = set()
+
+    def walk(v):
+        if isinstance(v, PyObj):
+            if any(same_obj(v, h) for h in holes) or id(v) in seen:
+                return
+            seen.add(id(v))
+            if v.cls.startswith("ast.") and v.cls not in ("ast.Add", "ast.Load", "ast.Store", "ast.Del", "ast.withitem", "ast.arguments", "ast.comprehension"):
+                for f, w in (("lineno", lineno), ("col_offset", col), ("end_lineno", end_lineno), ("end_col_offset", end_col)):
+                    conj.append(eq(v.fields[f], w) if f in v.fields else z3.BoolVal(False))
+            for x in v.fields.values():
+                walk(x)
+        elif isinstance(v, (PyList, PyTuple)):
+            for x in v.items:
+                walk(x)
+    walk(result)
+    return z3.And(conj) if conj else z3.BoolVal(True)
 
 
 def sf_prefix_of(ex, st, a, b):
@@ -392,4 +469,4 @@ def sf_node_end(ex, st, n):
 SPEC_FUNCS = {"lines_ok": sf_lines_ok, "node_start": sf_node_start, "node_end": sf_node_end, "node_wf": sf_node_wf, "wf_error": sf_wf_error, "tok_wf": sf_tok_wf, "toks_wf": sf_toks_wf, "lines_left": sf_lines_left, "indent_col": sf_indent_col, "indents_wf": sf_indents_wf, "is_blank_char": sf_is_blank_char, "last": sf_last, "lr_cache_ok": sf_lr_cache_ok, "cache_ok": sf_cache_ok, "cache_has": sf_cache_has, "cache_end": sf_cache_end, "cache_tree": sf_cache_tree, "em_cached": sf_em_cached, "tk_ok": sf_tk_ok, "can_peek": sf_can_peek, "layout": sf_layout, "cache_wf": sf_cache_wf, "truthy": sf_truthy, "is_none": sf_is_none, "pos_le": sf_pos_le,
               "endmarker_last": sf_endmarker_last, "endmarker_pulled": sf_endmarker_pulled, "gen_pos": sf_gen_pos,
               "gen_len": sf_gen_len, "gen_cat": sf_gen_cat, "gen_count": sf_gen_count, "le_isbytes": sf_le_isbytes, "lit_isbytes": sf_lit_isbytes, "lit_val": sf_lit_val,
-              "lit_fold": sf_lit_fold, "has_field": sf_has_field, "mode_kind_of": sf_mode_kind_of, "mode_level_of": sf_mode_level_of, "pat_kind": sf_pat_kind, "same_frame": sf_same_frame, "pat_q": sf_pat_q, "gen_item": sf_gen_item, "prefix_of": sf_prefix_of, "tok_type": sf_tok_type}
+              "lit_fold": sf_lit_fold, "has_field": sf_has_field, "is_translation": sf_is_translation, "all_located": sf_all_located, "mode_kind_of": sf_mode_kind_of, "mode_level_of": sf_mode_level_of, "pat_kind": sf_pat_kind, "same_frame": sf_same_frame, "pat_q": sf_pat_q, "gen_item": sf_gen_item, "prefix_of": sf_prefix_of, "tok_type": sf_tok_type}
